@@ -93,7 +93,8 @@ impl<H: ElementHasher> ElementHasher for LoggedHasher<H> {
 // TRANSPARENT-HEAD HASHER
 // ------------------------------------------------------------------------------------------------
 /// A harness-defined hasher for the generic `DefaultRandomCoin<H>`: `merge_with_int(seed, value)` returns a
-/// digest whose first 8 bytes ARE `value` (little-endian); the other 24 bytes, and every other method, are
+/// digest whose first 8 bytes are `value * HEAD_K mod 2^64` (little-endian) — an invertible map that keeps
+/// the number of trailing zero bits and sets high bits even for small counters; the other 24 bytes, and every other method, are
 /// BLAKE3 of a tagged encoding of the inputs (so distinct inputs still give distinct digests).  With real
 /// hashers a digest head with more than ~30 trailing zero bits never occurs; with this one the driver picks
 /// the head, so check_leading_zeros is exercised on every count 0..64, draws decode chosen bytes, etc.
@@ -117,6 +118,8 @@ impl Deserializable for TDigest {
     }
 }
 pub struct TransparentHead<B>(PhantomData<B>);
+/// odd, top bit set
+const HEAD_K: u64 = 0x9E37_79B9_7F4A_7C15;
 fn tagged(tag: u8, parts: &[&[u8]]) -> [u8; 32] {
     let mut h = blake3::Hasher::new();
     h.update(&[tag]);
@@ -142,7 +145,7 @@ impl<B: StarkField> Hasher for TransparentHead<B> {
     fn merge_with_int(seed: TDigest, value: u64) -> TDigest {
         let mut out = tagged(b'i', &[&seed.0, &value.to_le_bytes()]);
         out.copy_within(0..24, 8);
-        out[..8].copy_from_slice(&value.to_le_bytes());
+        out[..8].copy_from_slice(&value.wrapping_mul(HEAD_K).to_le_bytes());
         TDigest(out)
     }
 }
@@ -171,7 +174,7 @@ fn res_panic(msg: String) -> Value {
 }
 
 fn event(e: &str, run: &str, hid: u64) -> Value {
-    json!({"e": e, "run": run, "hid": hid, "f": "", "h": "", "seed": [], "d": -1, "deg": 0, "n": 0, "size": 0,
+    json!({"e": e, "run": run, "hid": hid, "f": "", "h": "", "seed": [], "d": -1, "deg": 0, "n": 0, "size": [],
            "nonce": [], "div": 0, "oracle": 1, "hf": [], "r": {"t": "ok", "v": []}})
 }
 
@@ -240,13 +243,14 @@ fn run_once<B: TField, H: ElementHasher<BaseField = B>>(h: &Value, run: &str, ou
             },
             "ints" => {
                 let n = op["n"].as_u64().unwrap_or(0) as usize;
-                let size = op["size"].as_u64().unwrap_or(0) as usize;
+                // domain size and drawn integers travel as 8 little-endian bytes (they exceed 2^31)
+                let size = u64_of(&op["size"]) as usize;
                 ev["n"] = json!(n);
-                ev["size"] = json!(size);
+                ev["size"] = op["size"].clone();
                 ev["nonce"] = op["nonce"].clone();
                 let nonce = u64_of(&op["nonce"]);
                 ev["r"] = match catch(|| coin.draw_integers(n, size, nonce)) {
-                    Ok(Ok(v)) => res_ok(json!(v)),
+                    Ok(Ok(v)) => res_ok(Value::Array(v.iter().map(|x| json_bytes(&(*x as u64).to_le_bytes())).collect())),
                     Ok(Err(e)) => res_err(e),
                     Err(p) => res_panic(p),
                 };
